@@ -171,3 +171,34 @@ Theorem combined_request_keeps_contract :
     (w_fmts a <> [] -> exists e, In e (w_fmts a) /\ (r_fmt r = e \/ fmt_match (r_fmt r) e = true)) /\
     (forall d, In d (r_fwd r) -> In d (q_dims q) /\ In (d_lower d) (w_fwd a) /\ In (d_lower d) (w_fwd b)).
 Proof. exact combined_request_contract. Qed.
+
+(* Any number of sources requested together (service.wms.combined_layers): every layer e that is rendered stands for
+   a group ms of adjacent sources, agrees with each of them (same coverage bbox / equal SRS / same geometry, equal
+   supported_srs and supported_formats lists, the same forwarded dimensions for this query), and a layer that stands
+   for more than one source exists only when no member's resolution range excludes the request.  Since e is a
+   wms_source, all theorems above apply to its request; with agrees they carry over to every member. *)
+Theorem combined_layers_keep_contract :
+  forall (kn kd : Z) (first : wms_source) (rest : list (bool * wms_source)) (q : query)
+         (e : wms_source) (ms : list wms_source),
+    In (e, ms) (combine_layers kn kd first rest q) ->
+    (forall m, In m ms -> agrees e m q) /\
+    (ms = [e] \/ forall m, In m ms -> rr_blocks kn kd (w_rr m) q = false).
+Proof. exact combine_layers_group_ok. Qed.
+
+(* what agrees says about the coverage *)
+Theorem agreeing_sources_share_coverage :
+  forall (e m : wms_source) (q : query) (cb : bbox) (cs : srs),
+    agrees e m q -> w_cov e = Some (cb, cs) ->
+    exists cs', w_cov m = Some (cb, cs') /\ srs_eq cs cs' = true /\ w_geom e = w_geom m.
+Proof. exact agrees_coverage. Qed.
+
+(* Format negotiation on the reprojection path (_get_transformed): when no supported SRS equals the SRS of the
+   query, the request goes out in an SRS object of supported_srs and in the negotiated format. *)
+Theorem reprojected_request_srs_and_format :
+  forall (T : srs -> srs -> bbox -> option bbox) (kn kd : Z) (GI GC : Z -> bbox -> bool)
+         (src : wms_source) (q : query) (r : request),
+    wms_get_map T kn kd GI GC src q = Request r -> w_srs src <> [] ->
+    find (fun s => srs_eq (q_srs q) s) (w_srs src) = None ->
+    In (r_srs r) (w_srs src) /\ r_fmt r = choose_format src q /\
+    (w_fmts src <> [] -> exists e, In e (w_fmts src) /\ (r_fmt r = e \/ fmt_match (r_fmt r) e = true)).
+Proof. exact reprojected_request. Qed.
